@@ -32,6 +32,13 @@ pub fn check(c: &Case) -> CheckResult {
     ensure!(buf[64..64 + c.dk_len] == want[..], "exported C scrypt wrote a value different from RFC 7914 (N={} r={} p={} dkLen={})", c.n(), c.r, c.p, c.dk_len);
     ensure!(buf[..64].iter().all(|&b| b == 0xA5) && buf[64 + c.dk_len..].iter().all(|&b| b == 0xA5), "exported C scrypt wrote outside the {} requested bytes", c.dk_len);
     ensure!(pw2 == pw && salt2 == salt, "exported C scrypt modified its input buffers");
+    // the header declares plain (non-restrict) pointers: a C caller may derive the key in place, over the password buffer
+    if c.pw_len >= c.dk_len && c.pw_len > 0 {
+        let mut inplace = pw.clone(); let p = inplace.as_mut_ptr();
+        unsafe { crate::ffi::scrypt(p as *const u8, inplace.len(), salt.as_ptr(), salt.len(), c.n(), c.r, c.p, p, c.dk_len); }
+        ensure!(inplace[..c.dk_len] == want[..], "exported C scrypt called with the output buffer over the password buffer did not write the RFC 7914 value of that password (N={} r={} p={} dkLen={} |pw|={})", c.n(), c.r, c.p, c.dk_len, c.pw_len);
+        ensure!(inplace[c.dk_len..] == pw[c.dk_len..], "in-place derivation changed password bytes beyond the requested output length");
+    }
     ok(c.r > 1 || c.p > 1 || (c.dk_len != 32 && c.dk_len != 64), format!("N=2^{}{}{}", if c.log_n <= 5 { "1-5" } else if c.log_n <= 10 { "6-10" } else { "11-15" }, if c.r != c.p { "/r!=p" } else { "" }, if c.dk_len % 32 != 0 { "/dk%32!=0" } else { "" }))
 }
 
